@@ -17,7 +17,7 @@ Edg(r) == Range(r.edges)
 
 C08(r) ==
   [ in_domain    |-> WellFormedRows(Full(r)) /\ StrictSerial(Full(r)) /\ CausallyConsistent(Full(r)),
-    input_faithful |-> RowsFaithful(Full(r), Range(r.file)),
+    input_faithful |-> RowsFaithful(Full(r), Range(r.file)) /\ LinksFaithful(Full(r), Range(r.file)),
     succeeds     |-> r.err = "" /\ r.success,
     node_ids     |-> r.err = "" => NodeIdsOK(r.nodes) /\ EdgesClosed(r.nodes, Edg(r)) /\ SimpleGraph(Edg(r)),
     one_start_one_end |-> r.err = "" => OneStartOneEnd(Win(r), r.nodes),
